@@ -189,11 +189,11 @@ func (s *Server) DidChange(ctx context.Context, params *protocol.DidChangeTextDo
 			}
 		}
 		s.documents.Store(params.TextDocument.URI, content)
-		if s.workspace != nil {
-			if path := uriToPath(params.TextDocument.URI); path != "" {
+		if path := uriToPath(params.TextDocument.URI); path != "" {
+			if s.workspace != nil {
 				s.workspace.UpdateFile(path, content)
-				s.loader.InvalidateFile(path)
 			}
+			s.loader.InvalidateFile(path)
 		}
 		go s.publishDiagnostics(ctx, params.TextDocument.URI, content)
 	}
@@ -214,15 +214,16 @@ func (s *Server) DidClose(ctx context.Context, params *protocol.DidCloseTextDocu
 func (s *Server) DidSave(ctx context.Context, params *protocol.DidSaveTextDocumentParams) error {
 	s.payeeTemplatesCache.Delete(params.TextDocument.URI)
 
-	if s.workspace != nil {
-		if path := uriToPath(params.TextDocument.URI); path != "" {
+	if path := uriToPath(params.TextDocument.URI); path != "" {
+		if s.workspace != nil {
 			if content, ok := s.GetDocument(params.TextDocument.URI); ok {
 				s.workspace.UpdateFile(path, content)
 			} else if data, err := os.ReadFile(path); err == nil {
 				s.workspace.UpdateFile(path, string(data))
 			}
-			s.loader.InvalidateFile(path)
 		}
+		// the include cache is shared by all documents, workspace or not
+		s.loader.InvalidateFile(path)
 	}
 	return nil
 }
